@@ -192,6 +192,13 @@ func (e *c14env) fieldLoad(ld ssa.Instruction, f *types.Var) c14lform {
 			}
 		}
 		if len(b.Preds) != 1 || b.Preds[0] == b {
+			// a join that no write to the field can reach from its immediate dominator: the field still holds what it
+			// held at the end of the dominator (v_ring_lin.go)
+			if d := e.k.unwrittenSinceIdomV(b, f); d != nil {
+				b = d
+				idx = len(b.Instrs)
+				continue
+			}
 			break
 		}
 		b = b.Preds[0]
@@ -259,6 +266,9 @@ func (e *c14env) lin(v ssa.Value) c14lform {
 		if f, ok := e.bind[x]; ok {
 			return f
 		}
+		if e.parent == nil && k.countParamV(x) {
+			return c14atom("Len:arg:" + x.Name()) // a count every caller proves to lie in [0, Len()] (v_ring_lin.go)
+		}
 	case *ssa.UnOp:
 		if x.Op == token.MUL {
 			for _, f := range []*types.Var{k.rIdx, k.wIdx} {
@@ -306,6 +316,9 @@ func (e *c14env) lin(v ssa.Value) c14lform {
 		}
 	case *ssa.Phi:
 		if ed, ok := e.phiEdge(x); ok {
+			if e.overBackEdgeV(x) {
+				return e.opaque(x) // a loop variable as it arrived from the previous iteration (v_ring_lin.go)
+			}
 			return e.lin(ed)
 		}
 	case *ssa.Call:
@@ -315,6 +328,10 @@ func (e *c14env) lin(v ssa.Value) c14lform {
 					return c14const(0)
 				}
 				return sg.length
+			}
+			if a := ir.Resolve(cc.Args[0]); a != nil && a.Parent() == e.fn {
+				// the length of a slice that is no part of the backing array: one non-negative number per slice value
+				return c14atom("n:len:" + e.vname(a))
 			}
 		}
 		if cc := builtinCall(x, "copy"); cc != nil && len(cc.Args) == 2 {
@@ -490,6 +507,11 @@ func (e *c14env) geq0(raw c14lform, facts []c14lform, depth int) bool {
 			if coef < 0 {
 				alpha += coef
 				beta -= coef
+			}
+		case strings.HasPrefix(key, "n:"):
+			// a length (v_ring_lin.go): >= 0, no upper bound
+			if coef < 0 {
+				boxed = false
 			}
 		default:
 			boxed = false
